@@ -604,6 +604,7 @@ def run_c18(ctx):
     base_inputs(ctx, soup_n=6000 if q else 80000, trunc_n=400 if q else 4000, lf_n=100 if q else 1000)
     ctx.add_cases("sepfam", gen.sep_family(ctx.rng, 3000 if q else 40000))
     pick_samples(ctx)
+    seppair_mc(ctx)
     cases = list(ctx.cases.values())
     for on, off in (("dbg", "nosep"),) + ((("rel", "relnosep"),) if not q else ()):
         ra, _ = run_to_dict(ctx, on, cases, events=False, tag=on)
@@ -922,6 +923,27 @@ def views_mc(ctx):
                                           "text_length_max": n, "tokens_max": k, "distinct_buffers": st["distinct"],
                                           "wall_s": round(wall, 1), "exhaustive": True}
     log("[mc] MC_Views N=%d K=%d: %d buffers, %.0fs, bulk view = accessors = text" % (n, k, st["distinct"], wall))
+
+
+def seppair_mc(ctx):
+    """C18 at the design level: spec/MC_SepPair.tla runs the model with and without the feature in lockstep."""
+    sets = [("macrostat", 7, 1, 2)] if ctx.quick() else [("macrostat", 9, 1, 2), ("call", 30, 1, 2), ("str", 30, 1, 2)]
+    runs = []
+    for fs, stack, calls, window in sets:
+        cfg = (MC_CFG % dict(invs="SameConfiguration SepErase SepPlacement SepPlacementStrict NoFault", props="",
+                             view="VIEW PView", maxfrags=1000, spec=8, tsc=4, fs=fs, stack=stack, window=window, calls=calls,
+                             emit="FALSE")).replace("SPECIFICATION Spec", "SPECIFICATION PSpec")
+        rc, out, wall = common.tlc("MC_SepPair", cfg, ctx.dir, "mc-seppair-" + fs, workers=16, timeout=3600, heap="16g")
+        if "Model checking completed. No error has been found." not in out:
+            raise ToolError("MC_SepPair failed:\n" + out[-1500:])
+        st = common.parse_tlc_stats(out)
+        ctx.states += st["distinct"]
+        ctx.transitions += st["states"]
+        runs.append({"fragset": fs, "max_stack": stack, "distinct": st["distinct"], "states": st["states"], "wall_s": round(wall, 1)})
+        log("[mc] MC_SepPair %s stack<=%d: %d distinct states, %.0fs, invariants hold" % (fs, stack, st["distinct"], wall))
+    ctx.extra["design_model_checking"] = {"module": "spec/MC_SepPair.tla",
+                                          "invariants": ["SameConfiguration", "SepErase", "SepPlacement", "SepPlacementStrict", "NoFault"],
+                                          "runs": runs}
 
 
 # ----------------------------------------------------------------------------- Gen (C12-C14)
